@@ -19,6 +19,7 @@ import (
 
 type World struct {
 	pureMemo   map[*ssa.Function]bool
+	constBusy  map[*ssa.Function]bool
 	plumb      map[*ssa.Function]bool
 	plumbSum   map[*ssa.Function]*Expr
 	dynTargets map[ssa.CallInstruction][]*ssa.Function
